@@ -17,7 +17,7 @@ From Coq Require Import ZArith Lia Bool List String.
 From NL.Model Require Import VM.
 From NL.Spec Require Import Sem Fragment Fragment2 Fragment2h ArithSpec.
 From NL.Proofs Require Import WordProofs OpsProofs AstInduction ControlProofs PoolProofs
-  CompileCorrectA CompileCorrectB CompileCorrectC CompileCorrectH.
+  CompileCorrectA CompileCorrectB CompileCorrectC CompileCorrectH1.
 Open Scope Z_scope.
 
 (** * The intermediate evaluator for F2h *)
@@ -2182,7 +2182,7 @@ Section SimH.
     assert (zlength xs = zlength vs) as Hlen.
     { unfold zlength. rewrite (heval_list_length _ _ _ _ _ _ E1). reflexivity. }
     pose proof (hstep_array orc prog sa (zlength vs) xs (v_stack s) [] Hat Hr eq_refl Hlen) as Hstep.
-    change (hst_of sa) with m1 in Hstep.
+    rewrite (hst_of_seth _ _ _ _ m1 _ : hst_of sa = m1) in Hstep.
     cbn [stepped] in Hstep. rewrite (surjective_pairing (h_array m1 xs)) in Hstep.
     cbn [hlift_o simh]. exists fin1. apply (reaches_trans orc prog s sa _ Hsim1). apply reaches_step.
     rewrite Hstep. f_equal. f_equal.
@@ -2234,7 +2234,7 @@ Section SimH.
     pose proof (code_x_at1 _ _ _ _ _ ERc (fun x => x)) as Hat.
     pose proof (code_len_emit_opcode OIndexGet st2) as L3.
     pose proof (hstep_index_get orc prog sb b a (v_stack s) [] Hat eq_refl) as Hstep.
-    change (hst_of sb) with m2 in Hstep.
+    rewrite (hst_of_seth _ _ _ _ m2 _ : hst_of sb = m2) in Hstep.
     destruct (h_index_get m2 a b) as [[x m3]| | |]; cbn [stepped] in Hstep; cbn [hlift_o simh fst snd].
     - exists fin2. apply (reaches_trans orc prog s sa _ Hsim1). apply (reaches_trans orc prog sa sb _ Hsim2).
       apply reaches_step. rewrite Hstep. f_equal. f_equal. subst sb sa. unfold sethm, seth. vmcbnh.
@@ -2300,7 +2300,7 @@ Section SimH.
     pose proof (code_x_at1 _ _ _ _ _ ERc (fun x => x)) as Hat.
     pose proof (code_len_emit_opcode OIndexSet st3) as L4.
     pose proof (hstep_index_set orc prog sc c b a (v_stack s) [] Hat eq_refl) as Hstep.
-    change (hst_of sc) with m3 in Hstep.
+    rewrite (hst_of_seth _ _ _ _ m3 _ : hst_of sc = m3) in Hstep.
     destruct (h_index_set m3 a b c) as [[x m4]| | |]; cbn [stepped] in Hstep; cbn [hlift_o simh fst snd].
     - exists fin3. apply (reaches_trans orc prog s sa _ Hsim1). apply (reaches_trans orc prog sa sb _ Hsim2).
       apply (reaches_trans orc prog sb sc _ Hsim3).
@@ -2346,7 +2346,7 @@ Section SimH.
     assert (zlength xs = n) as Hlen.
     { unfold n, zlength. rewrite (heval_list_length _ _ _ _ _ _ E1). reflexivity. }
     pose proof (hstep_builtin orc prog sa b n xs (v_stack s) [] Hat eq_refl Hlen) as Hstep.
-    change (hst_of sa) with m1 in Hstep.
+    rewrite (hst_of_seth _ _ _ _ m1 _ : hst_of sa = m1) in Hstep.
     pose proof (cfactsh_len _ _ _ _ _ _ CF2) as L2. rewrite zlength3 in L2.
     destruct (h_builtin orc m1 b xs) as [[v m2]| | |]; cbn [stepped] in Hstep; cbn [hlift_o simh fst snd].
     - exists fin1. apply (reaches_trans orc prog s sa _ Hsim1). apply reaches_step.
